@@ -31,7 +31,7 @@ Inductive item := IOk (k : token) | IErr (e : perr).
 
 Inductive tree :=
 | Leaf (k : token)
-| ErrLeaf (err : perr) (dropped : list token)   (* ErrorRecovery { error, dropped_tokens } *)
+| ErrLeaf (err : perr) (dropped : list token) (lo hi : Z)   (* ErrorRecovery { error, dropped_tokens } and the span it was pushed with *)
 | Node (p : nat) (kids : list tree).
 
 (** Tables exactly as emitted. *)
@@ -69,7 +69,7 @@ Definition states_of (stk : list entry) : list nat := map e_state stk ++ [0].
 Definition sym_of (A : tables) (t : tree) : option sym :=
   match t with
   | Leaf k => option_map Tm (tk_idx k)
-  | ErrLeaf _ _ => Some (Tm (err_col A))
+  | ErrLeaf _ _ _ _ => Some (Tm (err_col A))
   | Node p _ => option_map (fun pr => Nt (fst pr)) (nth_error (prods A) p)
   end.
 
@@ -124,7 +124,7 @@ Definition expected_tokens (A : tables) (fuel : nat) (stk : list entry) : eres :
 
 (** Parser state. *)
 (* [ActFail p e]: the fallible action of production p ran and returned Err(e) *)
-Inductive event := Pull (i : nat) | PullEof | Act (p : nat) | ActFail (p : nat) (e : N) | Shift (i : nat) | Drop (i : nat).
+Inductive event := Pull (i : nat) | PullEof | Act (p : nat) (lo hi : Z) | ActFail (p : nat) (e : N) | Shift (i : nat) | Drop (i : nat).
 Record pst := {
   stk : list entry;
   rest : list item;       (* unread part of the token iterator *)
@@ -213,7 +213,7 @@ Definition reduce (A : tables) (orc : oracle) (p : nat) (la_start : option Z) (s
         else
           match orc p kids with
           | Some e => (RdDone (RErr (PUser e)), Some (ActFail p e))
-          | None => (RdCont ((goto_at A (top_state below) nt, Node p kids, lo, hi) :: below), Some (Act p))
+          | None => (RdCont ((goto_at A (top_state below) nt, Node p kids, lo, hi) :: below), Some (Act p lo hi))
           end
   end.
 
@@ -328,7 +328,7 @@ Definition error_recovery (A : tables) (orc : oracle) (fuel : nat) (la : option 
           | Some a =>
             match as_shift a with
             | Some es =>
-              let s3 := set_stk s2 ((es, ErrLeaf err dropped, start, end_) :: kept) in
+              let s3 := set_stk s2 ((es, ErrLeaf err dropped start end_, start, end_) :: kept) in
               match la' with
               | Some (k, i) => (Found k i, s3)
               | None => (NEof, s3)
